@@ -170,6 +170,23 @@ UnsafeFull(t, fs) ==
     \cup {"symlink-leaves-its-directory" : e \in {x \in t : x.kind = "symlink" /\ x.val = "s2"}}
 Unsafe(f, t, mode, fs) == IF mode = "full" THEN UnsafeFull(t, fs) ELSE UnsafeIncr(f, t)
 
+\* what kinds of change a delta contains (used to spread the replayed behaviours over the delta classes; not a C43 clause)
+Features(f, t, mode) ==
+    IF mode = "full" THEN {"full"}
+    ELSE {"removed-file" : e \in {x \in Removed(f, t) : x.kind # "dir"}}
+         \cup {"removed-empty-dir" : e \in {x \in Removed(f, t) : x.kind = "dir" /\ Below(Proj(f), x.path) = {}}}
+         \cup {"removed-dir-with-children" : e \in {x \in Removed(f, t) : x.kind = "dir" /\ Below(Proj(f), x.path) # {}}}
+         \cup {"renamed-file" : pr \in {x \in Renamed(f, t) : x[1].kind # "dir"}}
+         \cup {"renamed-dir" : pr \in {x \in Renamed(f, t) : x[1].kind = "dir"}}
+         \cup {"renamed-changed" : pr \in {x \in Renamed(f, t) : ChangedContent(x)}}
+         \cup {"swap" : pr \in {x \in Renamed(f, t) : \E y \in Renamed(f, t) : x[2].path = y[1].path}}
+         \cup {"moved-between-levels" : pr \in {x \in Renamed(f, t) : Len(x[1].path) # Len(x[2].path)}}
+         \cup {"kind-changed" : pr \in KindChanged(f, t)}
+         \cup {"added-file" : e \in {x \in Added(f, t) : x.kind = "file"}} \cup {"added-dir" : e \in {x \in Added(f, t) : x.kind = "dir"}}
+         \cup {"added-symlink" : e \in {x \in Added(f, t) : x.kind = "symlink"}}
+         \cup {"modified-content" : pr \in {x \in Modified(f, t) : x[1].val # x[2].val}}
+         \cup {"modified-exec" : pr \in {x \in Modified(f, t) : x[1].exec # x[2].exec}}
+
 (* ------------------------------------------------------------------ edits: one per commit *)
 File(i, p, v, x) == [id |-> i, path |-> p, kind |-> "file", val |-> v, exec |-> x]
 Dir(i, p) == [id |-> i, path |-> p, kind |-> "dir", val |-> "", exec |-> FALSE]
@@ -210,34 +227,35 @@ VARIABLES hist,      \* trees of the branch's mainline, oldest first; hist[Len(h
           last,      \* outcome of the last upload call: "none" | "ok" | "failed" | "refused"
           err,       \* "<phase>:<error>" of a failed upload
           unsafe,    \* Unsafe(...) of the upload in progress / last finished
+          feat,      \* Features(...) of the upload in progress / last finished
           nedits, fresh
-vars == <<hist, upl, uplAt, remote, pc, st, mode, last, err, unsafe, nedits, fresh>>
+vars == <<hist, upl, uplAt, remote, pc, st, mode, last, err, unsafe, feat, nedits, fresh>>
 Tip == hist[Len(hist)]
 NoStage == [pr |-> <<>>, pd |-> <<>>, n |-> 0]
 
 Init == /\ \E n \in InitNames : hist = <<InitTree(n)>>
         /\ upl = {} /\ uplAt = 0 /\ remote = {} /\ pc = "idle" /\ st = NoStage /\ mode = "none" /\ last = "none" /\ err = ""
-        /\ unsafe = {} /\ nedits = 0 /\ fresh = FirstFresh
+        /\ unsafe = {} /\ feat = {} /\ nedits = 0 /\ fresh = FirstFresh
 
 Alive == pc = "idle" /\ last # "failed"
 Commit == /\ Alive /\ nedits < MaxEdits
           /\ \E t \in Edits(Tip, fresh) : hist' = Append(hist, t)
           /\ nedits' = nedits + 1 /\ fresh' = fresh + 1
-          /\ UNCHANGED <<upl, uplAt, remote, pc, st, mode, last, err, unsafe>>
+          /\ UNCHANGED <<upl, uplAt, remote, pc, st, mode, last, err, unsafe, feat>>
 Uncommit == /\ Alive /\ nedits < MaxEdits /\ Len(hist) >= 2
             /\ hist' = SubSeq(hist, 1, Len(hist) - 1)
             /\ uplAt' = IF uplAt = Len(hist) THEN 99 ELSE uplAt
             /\ nedits' = nedits + 1
-            /\ UNCHANGED <<upl, remote, pc, st, mode, last, err, unsafe, fresh>>
+            /\ UNCHANGED <<upl, remote, pc, st, mode, last, err, unsafe, feat, fresh>>
 \* cmd_upload.run(full, overwrite): refuses when the uploaded revision is not an ancestor of the tip, unless overwrite
 UploadStart(m, ow) ==
     /\ Alive /\ uplAt # Len(hist)
     /\ (ow => uplAt = 99)
     /\ IF uplAt = 99 /\ ~ow
-       THEN /\ last' = "refused" /\ last # "refused" /\ UNCHANGED <<pc, st, unsafe, mode, err>>
+       THEN /\ last' = "refused" /\ last # "refused" /\ UNCHANGED <<pc, st, unsafe, feat, mode, err>>
        ELSE LET eff == IF uplAt = 0 THEN "full" ELSE m IN
             /\ mode' = eff /\ last' = "none" /\ err' = "" /\ st' = NoStage
-            /\ unsafe' = Unsafe(upl, Tip, eff, remote)
+            /\ unsafe' = Unsafe(upl, Tip, eff, remote) /\ feat' = Features(upl, Tip, eff)
             /\ pc' = IF eff = "full" THEN "Full" ELSE "Removed"
     /\ UNCHANGED <<hist, upl, uplAt, remote, nedits, fresh>>
 S == [fs |-> remote, pr |-> st.pr, pd |-> st.pd, n |-> st.n, ok |-> TRUE, err |-> ""]
@@ -246,7 +264,7 @@ Phase(name, next, R) ==
     /\ remote' = R.fs /\ st' = [pr |-> R.pr, pd |-> R.pd, n |-> R.n]
     /\ IF R.ok THEN pc' = next /\ UNCHANGED <<last, err>>
        ELSE pc' = "idle" /\ last' = "failed" /\ err' = name \o ":" \o R.err
-    /\ UNCHANGED <<hist, upl, uplAt, mode, unsafe, nedits, fresh>>
+    /\ UNCHANGED <<hist, upl, uplAt, mode, unsafe, feat, nedits, fresh>>
 DoRemoved == Phase("Removed", "RenameToTemp", PhaseRemoved(S, upl, Tip))
 DoRenameToTemp == Phase("RenameToTemp", "FinishRenames", PhaseRenameTemp(S, upl, Tip))
 DoFinishRenames == Phase("FinishRenames", "FinishDeletions", PhaseFinishRenames(S))
@@ -256,7 +274,7 @@ DoAdded == Phase("Added", "Modified", PhaseAdded(S, upl, Tip))
 DoModified == Phase("Modified", "SetMarker", PhaseModified(S, upl, Tip))
 DoFull == Phase("Full", "SetMarker", PhaseFull(S, Tip))
 SetMarker == /\ pc = "SetMarker" /\ pc' = "idle" /\ last' = "ok" /\ upl' = Tip /\ uplAt' = Len(hist) /\ st' = NoStage
-             /\ UNCHANGED <<hist, remote, mode, err, unsafe, nedits, fresh>>
+             /\ UNCHANGED <<hist, remote, mode, err, unsafe, feat, nedits, fresh>>
 Next == Commit \/ Uncommit \/ (\E m \in {"incr", "full"}, ow \in BOOLEAN : UploadStart(m, ow))
         \/ DoRemoved \/ DoRenameToTemp \/ DoFinishRenames \/ DoFinishDeletions \/ DoKindChanged \/ DoAdded \/ DoModified
         \/ DoFull \/ SetMarker
